@@ -351,7 +351,32 @@ def rule_r7(p, res):
             "_from_vector_inplace must accept pixels through _set_masked_pixels")
 
 
-RULES = [rule_r1, rule_r2, rule_r3, rule_r4, rule_r5, rule_r6, rule_r7]
+def rule_r8(p, res):
+    r = res.rule("C05.R8", "a parameter update overwrites the parameters (no accumulation into the old state); the vector is not annihilated by a sign factor")
+    n = 0
+    for f in concrete_defs(p, "_from_vector_inplace"):
+        n += 1
+        r.instance(f)
+        bad = None
+        for st in walk_own(f.node):
+            if isinstance(st, ast.AugAssign):
+                for x in ast.walk(st.target):
+                    if isinstance(x, ast.Name) and x.id == f.params[0]:
+                        bad = st
+        r.check(bad is None, f, bad if bad is not None else f.node, "%s accumulates into the object's state (`%s`): from_vector(v).as_vector() then returns old + v instead of v whenever the "
+                "object is not the identity" % (f.short, norm(bad)[:60] if bad is not None else ""), {"function": f.short, "accumulates": bad is not None})
+    for f in concrete_defs(p, "_as_vector"):
+        r.instance(f)
+        for k in calls_in(f.node):
+            if (dotted(k.func) or "") in ("np.sign", "numpy.sign"):
+                par = getattr(k, "_parent", None)
+                if isinstance(par, ast.BinOp) and isinstance(par.op, ast.Mult):
+                    r.violation(f, k, "%s multiplies the parameter vector by np.sign(...): where the argument is exactly zero the whole vector becomes zero (not a valid parameter vector)" % f.short)
+    if n < 10:
+        raise AnalysisError("C05.R8: only %d _from_vector_inplace bodies (floor 10)" % n)
+
+
+RULES = [rule_r1, rule_r2, rule_r3, rule_r4, rule_r5, rule_r6, rule_r7, rule_r8]
 
 WITNESSES = [
     Witness("C05.W1", "menpo/transform/homogeneous/similarity.py", "Similarity._from_vector_inplace",
@@ -374,6 +399,8 @@ WITNESSES = [
             "if self.has_landmarks:\n        mask.landmarks = self.landmarks", "if copy:\n        mask.landmarks = self.landmarks",
             rule="C05.R5", construct="BooleanImage.from_vector"),
     Witness("C05.W10", "menpo/image/masked.py", "MaskedImage.from_vector", "dtype=vector.dtype", "dtype=self.pixels.dtype", rule="C05.R7", construct="MaskedImage.from_vector", note="seeded change C05-A"),
+    Witness("C05.W11", "menpo/transform/homogeneous/translation.py", "Translation._from_vector_inplace", "self.h_matrix[:-1, -1] = p", "self.h_matrix[:-1, -1] += p", rule="C05.R8", construct="Translation._from_vector_inplace", note="seeded change R2-C05-B"),
+    Witness("C05.W12", "menpo/transform/homogeneous/rotation.py", "Rotation._as_vector", "if q[0] < 0.0:\n            q = -q\n        return q", "return q * np.sign(q[0])", rule="C05.R8", construct="Rotation._as_vector", note="seeded change R2-C05-A"),
     Witness("C05.T1", "menpo/transform/homogeneous/similarity.py", "Similarity._from_vector_inplace",
             "self._set_h_matrix(homog, skip_checks=True, copy=False)", "self._set_h_matrix(homog, copy=False, skip_checks=True)", kind="T"),
     Witness("C05.T2", "menpo/shape/pointcloud.py", "PointCloud._as_vector",
